@@ -349,7 +349,7 @@ func (p proxyHandler) writeErrorResponse(rw http.ResponseWriter, req *http.Reque
 	} else {
 		// The response was built for the transport's own CONNECT request; it answers the client's request.
 		res.Request = req
-		res.Proto, res.ProtoMajor, res.ProtoMinor = req.Proto, req.ProtoMajor, req.ProtoMinor
+		proxyutil.SetProto(res, req)
 	}
 	if err := p.modifyResponse(res); err != nil {
 		log.Error(req.Context(), "error modifying error response", "error", err)
